@@ -152,3 +152,12 @@ BUILT['C18'] = (
     "Prismatic translates by theta a^ without rotating; se(n) form, inverse and scalar multiples consistent with exp; same for "
     "planar twists about a point",
     NOTE, "DESIGN.md 4 C18")
+BUILT['C19'] = (
+    "boundary monitor on every public member of Plucker and Plane against elementary geometry of the defining data computed "
+    "independently; predicates judged on exact constructed ground truth only",
+    "lines from PQ / PointDir / (v,w) / Planes with non-unit directions 1e-3..1e3 and points up to 1e3: defining points and "
+    "point(lambda) on the line, Pluecker constraint, pp and ppd, closest(x) projection / distance / parameter, SE3*line through "
+    "transformed points, distance and common perpendicular for general / intersecting / parallel pairs, intersection point, "
+    "plane through point+normal and through three points, line-plane intersection with its line parameter; == | ^ contains on "
+    "exact configurations (rescaled / reversed / displaced lines)",
+    NOTE, "DESIGN.md 4 C19")
